@@ -740,6 +740,7 @@ class RustExpr:
         self.structs = structs  # struct -> {field: type}
         self.consts = consts    # const name -> type
         self.subst = {}         # name -> Lean expression to put in its place (symbolic execution of statement blocks)
+        self.enums = {}         # enum name -> list of variants (a path `E::V` becomes the variant's index)
 
     def peek(self):
         return self.toks[self.i] if self.i < len(self.toks) else None
@@ -835,6 +836,12 @@ class RustExpr:
         if t in ("true", "false"):
             return t, "bool"
         if re.fullmatch(r"[A-Za-z_][A-Za-z_0-9]*", t):
+            if t in self.enums and self.peek() == "::":
+                self.next()
+                v = self.next()
+                if v not in self.enums[t]:
+                    raise TranslateError(f"{t}::{v} is not a variant")
+                return str(self.enums[t].index(v)), "usize"
             if t in self.structs and self.peek() == "{" and not no_struct:
                 self.next()
                 fields = []
@@ -1229,6 +1236,56 @@ def gen_rules():
 
 
 GENERATORS["Rules.lean"] = gen_rules
+
+
+def gen_bonus():
+    """score.rs: Config::bonus_for (the bonus rules of the scoring scheme, C03)"""
+    src = strip_comments(read("matcher/src/score.rs"))
+    csrc = strip_comments(read("matcher/src/chars.rs"))
+    classes = enum_variants(csrc, "CharClass")
+    if classes != ["Whitespace", "NonWord", "Delimiter", "Lower", "Upper", "Letter", "Number"]:
+        raise TranslateError(f"CharClass variants are {classes}")
+    bodies = [b for b in fn_bodies(src).get("bonus_for", []) if "match prev_class" in b]
+    if len(bodies) != 1:
+        raise TranslateError("Config::bonus_for not found")
+    body = bodies[0].replace("self.bonus_boundary_white", "white").replace("self.bonus_boundary_delimiter", "delim")
+    m = re.fullmatch(r"\{\s*if (class [^{]+?)\s*\{\s*match prev_class \{(.*?)_ => \(\),\s*\}\s*\}\s*(if .*)\}", body.strip(), re.S)
+    if not m:
+        raise TranslateError("Config::bonus_for has an unexpected shape")
+    consts = {k: "u16" for k in ("BONUS_BOUNDARY", "BONUS_CAMEL123", "BONUS_NON_WORD", "BONUS_CONSECUTIVE")}
+    env = {"prev_class": "usize", "class": "usize", "white": "u16", "delim": "u16"}
+    def ex(text):
+        px = RustExpr(text, env, {}, consts)
+        px.enums = {"CharClass": classes}
+        e, _ = px.expr(no_struct=True)
+        if not px.done():
+            raise TranslateError(f"trailing tokens in {text!r}")
+        return e
+    guard = ex(m.group(1))
+    arms = re.findall(r"CharClass::(\w+)\s*=>\s*return ([^,]+),", m.group(2))
+    if not arms or any(a not in classes for a, _ in arms):
+        raise TranslateError(f"bonus_for: arms {arms}")
+    # the trailing if / else-if chain (a `return e;` inside a branch is that branch's value)
+    tail = re.sub(r"return ([^;]+);", r"\1", m.group(3).strip())
+    px = RustExpr(tail, env, {}, consts)
+    px.enums = {"CharClass": classes}
+    tail_e, _ = px.unary(False)
+    if not px.done():
+        raise TranslateError("bonus_for: trailing tokens after the if-chain")
+    lines = []
+    for a, v in arms:
+        lines.append(f"  if {guard} && (decide (prev_class = {classes.index(a)})) then {ex(v)} else")
+    out = ["/- GENERATED by translator/translate.py from matcher/src/score.rs and matcher/src/chars.rs — do not edit -/",
+           "import NucleoVerif.Gen.Consts", "namespace NucleoVerif.Gen.Bonus", "open NucleoVerif.Gen", "",
+           "/-- `CharClass` variants in declaration order (`derive(PartialOrd)`): " + ", ".join(f"{i} = {k}" for i, k in enumerate(classes)) + " -/",
+           f"def charClasses : Nat := {len(classes)}", "",
+           "/-- `Config::bonus_for(prev_class, class)`; `white` / `delim` = `bonus_boundary_white` / `bonus_boundary_delimiter` -/",
+           "def bonus_for (white delim prev_class «class» : Nat) : Nat :="] + [l.replace(" class ", " «class» ").replace("(class ", "(«class» ") for l in lines] + \
+          ["  " + tail_e.replace(" class ", " «class» ").replace("(class ", "(«class» "), "", "end NucleoVerif.Gen.Bonus"]
+    return "\n".join(out) + "\n"
+
+
+GENERATORS["Bonus.lean"] = gen_bonus
 
 
 def rust_struct_fields(src, name):
